@@ -464,6 +464,7 @@ class WrapperAnalysis:
             thrown_seen = set()
             mutated = {o: [] for o in tracked}
             copied_from = set()
+            wrapper_assigned = {}
 
             def owner_of(place):
                 """(object, owner member) if the place is (inside) an owner member of a tracked object, or the object itself"""
@@ -564,6 +565,15 @@ class WrapperAnalysis:
                         self.on_memcpy(f, r, ev, src, tracked, owners, basefields, findings, path)
                         continue
                     callee = tu.callee_fn(ev.node)
+                    # `member = other.member` for a by-value wrapper member: whatever the (followed) assignment operator does inside the
+                    # member, the member as a whole is a copy of the source's
+                    if last(name) == 'operator=' and ev.place is not None and ev.value and len(ev.value) == 1:
+                        oo_ = owner_of(ev.place)
+                        if oo_ is not None and oo_[1] is not None and ev.place == ('field', oo_[0], oo_[1]) and okind.get(oo_[1]) == 'wrapper':
+                            dsc_ = self.describe(ev.value[0])
+                            if dsc_[0] == 'copyof':
+                                wrapper_assigned[(oo_[0], oo_[1])] = dsc_
+                                src[(oo_[0], oo_[1])] = dsc_
                     if ev.inlined:
                         continue        # the callee's own events follow in this path
                     if callee is not None and callee.get('rec') == r['q'] and tu.cfg(callee) is not None and ev.place in tracked \
@@ -621,7 +631,19 @@ class WrapperAnalysis:
                     elif whole and how == 'arg:swap':
                         lc = last_call.get(id(ev.node))
                         swapped = lc.place if lc is not None else None
-                    if swapped is not None and self.describe(swapped) == ('empty',):
+                    moved_out = False
+                    if whole and how.startswith('arg:') and okind.get(M) in ('sp_alloc', 'up_alloc', 'sp_wrapper', 'sp_other') and ev.node is not None:
+                        sd_ = tu.sd(ev.node)
+                        fm_ = re.search(r'\((.*)\)', sd_.get('fty') or '')
+                        ct_ = next((f_['ct'] for f_ in r['fields'] if f_['name'] == M), None)
+                        # handed as an rvalue to the move constructor / move assignment of its own smart-pointer type: empty afterwards
+                        if fm_ and fm_.group(1).strip().endswith('&&') and ',' not in fm_.group(1) and (h == 'operator=' or sd_.get('k') == 'ctor') \
+                                and ct_ is not None and norm_type(sd_.get('cty') or sd_.get('ct') or ct_) == norm_type(ct_):
+                            moved_out = True
+                    if moved_out:
+                        st[X] = 'E'
+                        src[(X, M)] = ('empty',)
+                    elif swapped is not None and self.describe(swapped) == ('empty',):
                         st[X] = 'E'
                         src[(X, M)] = ('empty',)
                     elif swapped is not None:
@@ -651,6 +673,8 @@ class WrapperAnalysis:
                             src[(X, M)] = self.describe(('construct', 'std::vector<>') + tuple(ev.value))
                         elif whole and how == 'resize':
                             src[(X, M)] = ('sized', unver(ev.value[0]) if ev.value else None)
+                        elif not whole and (X, M) in wrapper_assigned and how == 'operator=':
+                            src[(X, M)] = wrapper_assigned[(X, M)]      # a step of the member's own copy assignment
                         else:
                             src[(X, M)] = ('unknown', how)
                         if (h not in MUT_KNOWN and not how.startswith('arg:')) or \
@@ -739,6 +763,8 @@ class WrapperAnalysis:
             st[X] = 'S'
             return
         self.prov.setdefault(r['q'], set()).add(c['kind'] if c['kind'] != 'own' else 'own:' + c['okind'])
+        if c['kind'] == 'own' and c.get('offset'):
+            self.prov[r['q']].add('own:%s@offset' % c['okind'])
         if stale:
             findings.append(Finding('R-C11-2', 'stale', 'setPtr(%s, %s) uses a value read from `%s` before the statement that changed it '
                                     '(the pointer may refer to released storage)' % (show(pu), show(nu), show(stale[0])), ev.node))
@@ -818,6 +844,17 @@ class WrapperAnalysis:
             st[X] = 'S'
             return
         if k == 'view-of':
+            # copy operation of a class whose owner members share the storage: after the owners were copied from `other`, other's own
+            # (pointer, size) designate the same, co-owned elements
+            O_ = c.get('obj')
+            if owners and O_ in tracked and not c.get('offset') and self.m.shares_storage(r) \
+                    and all(src.get((X, M_)) == ('copyof', ('field', O_, M_)) for M_, k_, i_ in owners):
+                if nu == self.se._subst(N, {('this',): O_}):
+                    st[X] = 'S'
+                else:
+                    findings.append(Finding('R-C11-6', 'view-size', 'the copy takes the pointer of `%s` but the size `%s`' % (show(O_), show(nu)), ev.node,
+                                            not (nu[0] == 'const' or contains(nu, self.se._subst(N, {('this',): O_})))))
+                return
             if owners:
                 findings.append(Finding('R-C11-1', 'aliases-other-object', '%s owns its storage but setPtr(%s, ...) takes the view of another array' % (cname, show(pu)), ev.node))
                 return
@@ -888,6 +925,30 @@ class WrapperAnalysis:
             SZ = self.se._subst(N, {('this',): holder})
             offs = [t for t in (pu[1:] if isinstance(pu, tuple) and pu[0] == 'add' else ()) if not (isinstance(t, tuple) and t[0] == 'field' and t[2] == P)]
             off = mk_comm('add', offs) if offs else ('const', 0)
+            # copy operation: the member was copied from `other` (same, shared block); the copy must be the same window as other's view
+            if d is not None and d[0] == 'copyof' and isinstance(d[1], tuple) and d[1][0] == 'field' and d[1][1] in tracked and d[1][1] != X:
+                O_ = d[1][1]
+                NO = self.se._subst(N, {('this',): O_})
+                holderO = ('field', O_, M) if ok == 'wrapper' else ('deref', ('field', O_, M))
+                want_off = ('sub', ('field', O_, P), ('field', holderO, P))
+                if nu == NO and offs and off == want_off:
+                    st[X] = 'S'
+                    return
+                if nu == NO and not offs:
+                    for g_ in self.tu.functions.values():      # where do this class's views start: its other constructors
+                        if g_.get('recid') == r['id'] and not g_['dep'] and self.tu.cfg(g_) is not None and g_.get('ctor') == 'other':
+                            self.analyse(g_, r)
+                    if 'own:%s@offset' % ok in self.prov.get(r['q'], ()):
+                        findings.append(Finding('R-C11-6', 'copy-drops-offset',
+                                                'the copy re-points its view at the start of the shared block (`setPtr(%s, %s)`) and takes only the size from '
+                                                '`%s`: a %s can view a window that starts at an offset into `%s` (its constructor does setPtr(%s.begin() + '
+                                                'offset, size)), and the offset is not carried over - the copy of a view with offset k has the right size() '
+                                                'but its elements are [0, size) of the block instead of [k, k + size)'
+                                                % (show(pu), show(nu), show(O_), cname, M, M), ev.node))
+                    else:
+                        findings.append(Finding('R-C11-6', 'view-size', 'the copy views `%s` elements from the start of `%s`; whether that is the window of `%s` '
+                                                'is not decided' % (show(nu), M, show(O_)), ev.node, True))
+                    return
             zero = {a_ for a_ in (SZ, off) if path.cond_of(mk_eq(('const', 0), a_)) is True}
 
             def lin(x):
@@ -1133,6 +1194,41 @@ def check_wrappers(ctx, tu, tag=''):
             this = ('this',)
             # an operation that adopts a source (pointer / container parameter) does so on every returning path: a path that leaves
             # the array untouched because of a test of the source alone keeps the old size and contents
+            # a non-owning view assigned from a container aliases it exactly afterwards - (data(), size()) - on every returning path.  A path
+            # that returns without setPtr is right only if it has established both: the same pointer alone does not make the size right
+            # (a vector changes its length in place; a view can have been reset() to a prefix of the same block)
+            if not generated and not owners and f.get('access') in (None, 'public', 'none') and not f.get('ctor') and outs:
+                elem_t = m.elem(r).get('t')
+                csrcs = [('param', i_, p_.get('name') or '') for i_, p_ in enumerate(f.get('params', []))
+                         if norm_type(p_['ct']).startswith('std::vector<%s' % elem_t) or norm_type(p_['ct']).startswith('std::array<%s' % elem_t)]
+                adopting = [o for o in outs if o['did_setptr'].get(this)]
+                idle = [o for o in outs if not o['did_setptr'].get(this)]
+                base_ = m.base_of(r)
+                if len(csrcs) == 1 and adopting and idle and base_ is not None:
+                    sp = csrcs[0]
+                    Pn, Nn = base_[1], base_[2]
+                    for o in idle:
+                        pth = o['path']
+                        eqs = [unver(c_) for c_, pol_, _n in pth.conds if pol_ is True and isinstance(unver(c_), tuple) and unver(c_)[0] == 'eq']
+                        same_ptr = any(('field', this, Pn) in e_[1:] and any(isinstance(x_, tuple) and x_[0] == 'call' and last(x_[1]) == 'data' and x_[2] == sp
+                                                                           for x_ in e_[1:]) for e_ in eqs)
+                        same_size = any(Nn in e_[1:] and any(isinstance(x_, tuple) and x_[0] == 'call' and last(x_[1]) == 'size' and x_[2] == sp
+                                                             for x_ in e_[1:]) for e_ in eqs)
+                        txt = ', '.join('%s is %s' % (show(unver(c_)), p_) for c_, p_, _n in pth.conds)
+                        if same_ptr and same_size:
+                            continue
+                        if same_ptr:
+                            ctx.violation('R-C11-6', inst, 'on the path [%s] the assignment returns without setPtr because the view already points at `%s.data()`: '
+                                          'the size is not compared and keeps the value of the previous assignment. A std::vector changes its length '
+                                          'without changing data() (push_back within capacity, pop_back, resize, clear), and a view can have been reset() to '
+                                          'a prefix of the same block: after `view = %s` size() / at() / iteration do not cover exactly the container\'s '
+                                          'elements' % (txt, show(sp), show(sp)), loc,
+                                          key='%s|%s|%s|view-not-reseated' % ('R-C11-6', file, pname),
+                                          path=['%s (%s)' % (f['q'], loc), 'returns through blocks %s without setPtr' % (list(pth.blocks),)])
+                        else:
+                            ctx.undecided('R-C11-6', inst, 'a path [%s] leaves the view untouched while others re-seat it on the container' % txt, loc)
+                        exit_bad = True
+                        break
             if not generated and owners and f.get('access') in (None, 'public', 'none') and not f.get('ctor') and outs:
                 elem_t = m.elem(r).get('t')
                 srcs = [('param', i_, p_.get('name') or '') for i_, p_ in enumerate(f.get('params', []))
@@ -1239,6 +1335,24 @@ def check_wrappers(ctx, tu, tag=''):
                if r.get(k, {}).get('has') and not r[k].get('user') and not r[k].get('deleted')]
         unique = [(n, k) for n, k, i in owners if k in ('vec', 'up_alloc')] + \
                  [(n, k) for n, k, i in owners if k == 'wrapper' and not (m.wrappers.get(i) and m.shares_storage(m.wrappers[i]))]
+        # member-wise move: a smart-pointer owner is emptied in the source; so is a by-value wrapper member whose own move is of that kind
+        gen_move = [k for k in ('move_ctor', 'move_assign') if r.get(k, {}).get('has') and not r[k].get('user') and not r[k].get('deleted')]
+
+        def move_empties(w, seen=()):
+            if w is None or w['type'] in seen:
+                return False
+            gm = [k for k in ('move_ctor', 'move_assign') if w.get(k, {}).get('has') and not w[k].get('user') and not w[k].get('deleted')]
+            if not gm:
+                return False
+            return any(k in ('sp_alloc', 'sp_wrapper', 'sp_other') or (k == 'wrapper' and move_empties(m.wrappers.get(i), seen + (w['type'],)))
+                       for n, k, i in m.owners(w))
+        handles = [(n, next((f_['ct'] for f_ in r['fields'] if f_['name'] == n), k)) for n, k, i in owners
+                   if k in ('sp_alloc', 'sp_wrapper', 'sp_other') or (k == 'wrapper' and move_empties(m.wrappers.get(i)))]
+        base_ = m.base_of(r)
+        base_r = base_[0] if base_ else None
+        base_moves = False
+        if base_r is not None and any(base_r.get(k, {}).get('has') for k in ('move_ctor', 'move_assign')):
+            base_moves = None if any(base_r.get(k, {}).get('user') for k in ('move_ctor', 'move_assign')) else False
         unsure = [(n, i) for n, k, i in owners if k == 'wrapper' and m.wrappers.get(i) is not None
                   and any(m.wrappers[i].get(k_, {}).get('user') for k_ in ('copy_ctor', 'copy_assign')) and m.copy_sharing.get(i) is None]
         if unsure and gen and not unique:
@@ -1255,6 +1369,19 @@ def check_wrappers(ctx, tu, tag=''):
                           % (rname, ', '.join(x.replace('_', ' ') for x in gen), unique[0][0], extra), file,
                           key='%s|%s|%s|implicit-copy' % (R3, file, rname),
                           path=['%s::%s is a by-value %s' % (rname, unique[0][0], unique[0][1]), 'setPtr sources: %s' % sorted(wa.prov.get(r['q'], ()))])
+        elif gen_move and handles and base_moves is None:
+            ctx.undecided(R3, inst, 'the base %s has user-provided move operations; whether a member-wise move of %s leaves the source with a view it '
+                          'no longer keeps alive is not decided' % (short(base_r['type']) if base_r else '?', rname), file)
+        elif gen_move and handles and not base_moves:
+            ctx.violation(R3, inst, '%s has compiler-generated (defaulted) %s: a member-wise move hands the owner member `%s` (%s) over and leaves it '
+                          'empty in the source, while the base (pointer, size) of the source is only copied (the base has no move operations and a raw '
+                          'pointer does not reset itself). The moved-from array still reports its old data() and size() but no longer co-owns the '
+                          'block: once the destination lets go of it, a live object points into freed storage (without declared move operations '
+                          'std::move falls back to the copy and both share the block; a user-provided move must reset the source, as OwnedArray does)'
+                          % (rname, ', '.join(x.replace('_', ' ') for x in gen_move), handles[0][0], handles[0][1]), file,
+                          key='%s|%s|%s|implicit-move' % (R3, file, rname),
+                          path=['%s::%s is a %s' % (rname, handles[0][0], handles[0][1]),
+                                'move operations of the base %s: none (copies pointer and size)' % (short(base_r['type']) if base_r else '?')])
         else:
             ctx.ok(R3, inst, ('no uniquely owned by-value storage' if not unique else 'copy/move operations are user-provided or deleted: %s'
                               % {k: ('user' if r.get(k, {}).get('user') else 'deleted' if r.get(k, {}).get('deleted') else 'absent')
